@@ -285,14 +285,15 @@ class Note(object):
         name = ""
         octave = 0
         for x in shorthand:
-            if x in ["a", "b", "c", "d", "e", "f", "g"]:
+            if x in ["#", "b"] and name != "":
+                # an accidental; a leading 'b' is the note B itself
+                name += x
+            elif x in ["a", "b", "c", "d", "e", "f", "g"]:
                 name = str.upper(x)
                 octave = 3
             elif x in ["A", "B", "C", "D", "E", "F", "G"]:
                 name = x
                 octave = 2
-            elif x in ["#", "b"]:
-                name += x
             elif x == ",":
                 octave -= 1
             elif x == "'":
